@@ -43,8 +43,8 @@ theorem stepAndBeat_time (step : StepFn K) (k : Nat) (s : Sim K) (f : Flags) :
     (stepAndBeat step k s f).dtLastDone = (step k s.t s.dt s.dtLastDone).dld ∧
     (stepAndBeat step k s f).exactFinish = s.exactFinish := by
   unfold stepAndBeat runHeartbeat
-  rcases f with ⟨c, u, e, n, sg, em, nn⟩
-  cases c <;> cases u <;> cases e <;> cases n <;> cases sg <;> simp
+  rcases f with ⟨c, u, e, n, sg, em, nn, se⟩
+  cases c <;> cases u <;> cases e <;> cases n <;> cases sg <;> cases se <;> simp
 
 /-- invariant at the entry of `reb_check_exit` -/
 def RInv (tmax d sg : K) (s : Sim K) (lf : K) : Prop :=
